@@ -133,7 +133,10 @@ def correspond(ctx):
             ctx.fail("superposition fails: solution for %g*S1+%g*S2 differs from the combination of the two solutions by %.3g (field scale %.3g)"
                      % (a, b, worst, vmax), kind=kind, axi=axi, frequency=freq, S1=S1, S2=S2, a=a, b=b)
         fz = field(sols["zero"][1], kind, freq)
-        if max(abs(x) for x in fz) > 1e-12 * max(vmax, 1e-300) and max(abs(x) for x in fz) != 0.0:
+        import math
+        if any((x != x) or math.isinf(abs(x)) for x in fz):
+            ctx.fail("zero excitation gives non-finite potentials", kind=kind, axi=axi, frequency=freq)
+        elif max(abs(x) for x in fz) > 1e-12 * max(vmax, 1e-300) and max(abs(x) for x in fz) != 0.0:
             ctx.fail("zero excitation does not give the zero field (max |V| = %.3g)" % max(abs(x) for x in fz), kind=kind, axi=axi, frequency=freq)
         # reciprocity: response on terminal 2 to unit excitation of terminal 1 and vice versa
         r1, r2 = sols["e1"][0], sols["e2"][0]
